@@ -6,12 +6,14 @@ Cases (all carry 'script'):
                verbatim fragments) with a random layout ('stmts')
   kind 'raw'   fixed corpus (hand-written expectation in 'expect') and a malformed stream (no expectation: only K speaks)
 
-Four ties between the Coq model and the code (correspond), a case is bad when any of them disagrees:
+Five ties between the Coq model and the code (correspond), a case is bad when any of them disagrees:
   K_parse  extracted Gallina parse_model_nocheck (shared parser driver)  vs  fsic.parse_model: every Symbol field
   K_text   extracted CodeGen.code_text / equation_text (the strings the text-level theorem speaks about, statements with
            text_guard = true)  vs  the real Symbol.code / Symbol.equation
   K_pyast  extracted CodeGen.program_of_script (script -> Lex -> trees -> program)  vs  the program CPython's own `ast`
            reads from the real generated Model.CODE (harness/evalmodel.py)
+  K_code   extracted CodeGenBlock.equations_block (selection of symbols, default_converter, textwrap.indent, join)  vs  the
+           `{equations}` tail of the real Model.CODE
   K_eval   in Coq (vm_compute, PrimFloat): CodeGenF.check_ccase recomputes the program FROM THE SCRIPT TEXT, runs
            Eval.eval_pass and compares store after / exception / access sequence with the real _evaluate(t), bit for bit
 The oracle is the property itself on the real observation, independent of the model and of evalmodel's translation:
@@ -38,9 +40,10 @@ import parser_common as pc
 ID = 'C01'
 PROPS_FILE = 'Props/C01.v'
 MODEL_FILES = ['Parser/PyStr.v', 'Parser/Lex.v', 'Parser/Format.v', 'Parser/Symbols.v', 'Parser/Split.v', 'Parser/Merge.v',
-               'Parser/ParseEq.v', 'Parser/ParseModel.v', 'Eval/Eval.v', 'Eval/EvalF.v', 'CodeGen/CodeGen.v', 'CodeGen/CodeGenF.v']
-K_NAME = ('K_parse + K_text + K_pyast (extracted Parser / CodeGen models vs fsic.parse_model, Symbol.code/equation and the '
-          'CPython ast of Model.CODE) + K_eval (CodeGenF.check_ccase on PrimFloat vs the real _evaluate(t): store, exception, accesses)')
+               'Parser/ParseEq.v', 'Parser/ParseModel.v', 'Eval/Eval.v', 'Eval/EvalF.v', 'CodeGen/CodeGen.v', 'CodeGen/CodeGenF.v',
+               'CodeGen/CodeGenBlock.v', 'Extract/CodeGen/ExtractCodeGen.v']
+K_NAME = ('K_parse + K_text + K_pyast + K_code (extracted Parser / CodeGen models vs fsic.parse_model, Symbol.code/equation, the '
+          'CPython ast of Model.CODE, the equations block of Model.CODE) + K_eval (CodeGenF.check_ccase on PrimFloat vs the real _evaluate(t): store, exception, accesses)')
 RULE = ('fixed corpus (doc examples, defect inputs) + arithmetic programs of 1-4 equations with shared variables, trap names '
         '(keyword-prefixed, function-name prefixes, t, T, selfie, leading underscore), lags/leads up to 3 (a minority two-digit), '
         'indexed left-hand sides, + - * / ** unary minus, exp log max min abs, redundant parentheses, random layout (blanks, tabs, '
@@ -69,15 +72,16 @@ def ensure_codegen_driver():
     """(Re)build lib.COQ/Extract/CodeGen/driver when missing or older than its sources -> error string or None."""
     ml, mli, drv = (os.path.join(EXDIR, f) for f in ('codegen_model.ml', 'codegen_model.mli', 'driver.ml'))
     vsrc = [os.path.join(lib.COQ, 'Parser', f + '.v') for f in ('PyStr', 'Lex', 'Format', 'Symbols', 'Split', 'Merge', 'ParseEq', 'ParseModel')]
-    vsrc += [os.path.join(lib.COQ, 'CodeGen', 'CodeGen.v'), os.path.join(lib.COQ, 'Eval', 'Eval.v'),
+    vsrc += [os.path.join(lib.COQ, 'CodeGen', 'CodeGen.v'), os.path.join(lib.COQ, 'CodeGen', 'CodeGenBlock.v'), os.path.join(lib.COQ, 'Eval', 'Eval.v'),
              os.path.join(lib.COQ, 'Gen', 'Generated.v'), os.path.join(EXDIR, 'ExtractCodeGen.v')]
     with open(os.path.join(lib.COQ, '.build.lock'), 'a') as lk:
         fcntl.flock(lk, fcntl.LOCK_EX)
         try:
             if pc._mtime(ml) < max(pc._mtime(p) for p in vsrc) or pc._mtime(mli) < 0:
-                vo, v = os.path.join(lib.COQ, 'CodeGen', 'CodeGen.vo'), os.path.join(lib.COQ, 'CodeGen', 'CodeGen.v')
-                if pc._mtime(vo) < pc._mtime(v):
-                    return 'CodeGen/CodeGen.vo is missing or stale (build failed?)'
+                for base in ('CodeGen', 'CodeGenBlock'):
+                    vo, v = os.path.join(lib.COQ, 'CodeGen', base + '.vo'), os.path.join(lib.COQ, 'CodeGen', base + '.v')
+                    if pc._mtime(vo) < pc._mtime(v):
+                        return 'CodeGen/%s.vo is missing or stale (build failed?)' % base
                 p = subprocess.run(['coqc', '-R', '.', 'Fsic', '-w', '-notation-overridden,-extraction', 'Extract/CodeGen/ExtractCodeGen.v'],
                                    cwd=lib.COQ, capture_output=True, text=True, timeout=900)
                 if p.returncode != 0 or pc._mtime(ml) < 0:
@@ -643,6 +647,11 @@ def impl(case):
         return o
     names = list(Model.NAMES)
     o.update(code=Model.CODE, names=names, lags=int(Model.LAGS), leads=int(Model.LEADS))
+    # the `{equations}` block: Model.CODE is the class template with the class attributes filled in, ending with the block
+    head = fsic.parser.MODEL_TEMPLATE_TYPED.format(endogenous=Model.ENDOGENOUS, exogenous=Model.EXOGENOUS, parameters=Model.PARAMETERS,
+                                                   errors=Model.ERRORS, lags=Model.LAGS, leads=Model.LEADS, equations='')
+    if Model.CODE.startswith(head):
+        o['block'] = Model.CODE[len(head):]
     try:
         o['prog'] = em.translate_code(Model.CODE, names)
     except em.Unsupported as e:
@@ -750,6 +759,15 @@ def correspond(cases, obs, tag, tier):
         model = [[pc.unhx(h) for h in j['names']], [[s[0], s[1], s[2], _unlit(s[3])] for s in j['prog']]]
         if model != [o['names'], real]:
             note(i, 'K_pyast', model, [o['names'], real])
+    # ---- K_code: the `{equations}` block of the class text (CodeGenBlock.equations_block) vs the tail of the real Model.CODE
+    with_block = [i for i in live if obs[i].get('block') is not None]
+    ans, errs = run_codegen(['B ' + pc.hx(cases[i]['script']) for i in with_block])
+    if errs:
+        return [], errs
+    for i, a in zip(with_block, ans):
+        model = pc.unhx(a[2:]) if a.startswith('B:') else a
+        if model != obs[i]['block']:
+            note(i, 'K_code', model[-400:], obs[i]['block'][-400:])
     # ---- K_eval
     elig = [i for i in live if cases[i]['kind'] == 'prog' and 'after' in obs[i] and not guard(cases[i], obs[i])]
     # the Coq model reads every literal as a float: a Python int zero has no sign (-0 is 0, 0 * -1 is 0), a float zero has
